@@ -11,8 +11,8 @@ def fe_harness0(rep, cfg, modpath, fn, in_bounds, spec, out_bound, tier, extra_i
     """generic: fn(out, a[, b]) on field elements. in_bounds: list of per-operand limb bounds.
     spec(vals) -> Poly value expected (mod p)."""
     F = FIELD[cfg]; lay = F["layout"]
-    def build_run(concrete=None):
-        run = Run(module(modpath)); run.concrete = concrete
+    def build_run(concrete=None, shadow=None):
+        run = Run(module(modpath)); run.concrete = concrete; run.shadow = shadow
         out = run.out("out", lay)
         ops = []
         for k, b in enumerate(in_bounds):
@@ -22,12 +22,14 @@ def fe_harness0(rep, cfg, modpath, fn, in_bounds, spec, out_bound, tier, extra_i
         o = run.read(out, lay)
         vals = [lay.value(l) for _, l in ops]
         goals = [("value == spec (mod p)", modne(lay.value(o) - spec(*vals), P))]
+        cc = None
         for i, x in enumerate(o):
-            goals.append(("out limb %d <= %d" % (i, out_bound[i]), Cond("cmp", "gt", x, Poly.const(out_bound[i]))))
+            g = Cond("cmp", "gt", x, Poly.const(out_bound[i])); cc = g if cc is None else c_or(cc, g)
+        goals.append(("every out limb i <= %s" % (out_bound,), cc))
         return run, goals, o
     run, goals, o = build_run()
     def replay(env, gname):
-        r2, g2, o2 = build_run(env)
+        r2, g2, o2 = build_run(concrete=env)
         for (n2, c2) in g2:
             if n2 == gname: return eval_concrete(r2, c2), dict(llsym_concrete_outputs=[x.cval() for x in o2])
         return False, "goal not found"
@@ -55,8 +57,8 @@ def run_config(rep, cfg, tier, tasks):
 
 def enc_harness(rep, cfg, modpath, tier, T):
     F = FIELD[cfg]; lay = F["layout"]
-    def build_run(concrete=None):
-        run = Run(module(modpath)); run.concrete = concrete
+    def build_run(concrete=None, shadow=None):
+        run = Run(module(modpath)); run.concrete = concrete; run.shadow = shadow
         out = run.out("out", BYTES32)
         p, limbs = run.arg("x", lay, F["enc_in"])
         run.call("vp_fe_as_bytes", [out, p])
@@ -68,7 +70,7 @@ def enc_harness(rep, cfg, modpath, tier, T):
         return run, goals, o
     run, goals, o = build_run()
     def replay(env, gname):
-        r2, g2, o2 = build_run(env)
+        r2, g2, o2 = build_run(concrete=env)
         for (n2, c2) in g2:
             if n2 == gname: return eval_concrete(r2, c2), dict(llsym_concrete_outputs=[x.cval() for x in o2])
         return False, "goal not found"
@@ -76,20 +78,22 @@ def enc_harness(rep, cfg, modpath, tier, T):
 
 def dec_harness(rep, cfg, modpath, tier, T):
     F = FIELD[cfg]; lay = F["layout"]
-    def build_run(concrete=None):
-        run = Run(module(modpath)); run.concrete = concrete
+    def build_run(concrete=None, shadow=None):
+        run = Run(module(modpath)); run.concrete = concrete; run.shadow = shadow
         out = run.out("out", lay)
         p, bs = run.arg("b", BYTES32, 255)
         run.call("vp_fe_from_bytes", [out, p])
         o = run.read(out, lay)
         goals = [("value == bytes mod 2^255", modne(lay.value(o) - BYTES32.value(bs), 2**255))]
+        cc = None
         for i, x in enumerate(o):
-            goals.append(("limb %d <= %d" % (i, F["decoded"][i]), Cond("cmp", "gt", x, Poly.const(F["decoded"][i]))))
+            g = Cond("cmp", "gt", x, Poly.const(F["decoded"][i])); cc = g if cc is None else c_or(cc, g)
+        goals.append(("every limb i <= %s" % (F["decoded"],), cc))
         goals.append(("value < 2^255", ge(lay.value(o), 2**255)))
         return run, goals, o
     run, goals, o = build_run()
     def replay(env, gname):
-        r2, g2, o2 = build_run(env)
+        r2, g2, o2 = build_run(concrete=env)
         for (n2, c2) in g2:
             if n2 == gname: return eval_concrete(r2, c2), dict(llsym_concrete_outputs=[x.cval() for x in o2])
         return False, "goal not found"
